@@ -877,6 +877,30 @@ class _NPF:
 
         return _fp.trunc(x)
 
+    @staticmethod
+    def round(x, *a, **k):
+        from symx import fp as _fp
+
+        return _fp.np_round(x, *a, **k)
+
+    @staticmethod
+    def rint(x, *a, **k):
+        from symx import fp as _fp
+
+        return _fp.np_rint(x, *a, **k)
+
+    @staticmethod
+    def floor(x, *a, **k):
+        from symx import fp as _fp
+
+        return _fp.np_floor(x, *a, **k)
+
+    @staticmethod
+    def ceil(x, *a, **k):
+        from symx import fp as _fp
+
+        return _fp.np_ceil(x, *a, **k)
+
     def __getattr__(self, n):
         return getattr(np, n)
 
@@ -962,7 +986,27 @@ def lut8_wrapper(V, site, dtype, code, scale_kind, zp_in, zp_out, ofm_scale):
     half = z3.fpMul(RNE, cv(0.5 + 2.0 ** -7), soc)
     below = z3.fpLEQ(yc, z3.fpMul(RNE, cv(qmin - zp_out + 0.5 + 2.0 ** -7), soc))  # ideal value at or below the bottom code
     above = z3.fpGEQ(yc, z3.fpMul(RNE, cv(qmax - zp_out - 0.5 - 2.0 ** -7), soc))
-    return [("the function is evaluated at the dequantised input ifm_scale * (code - zp_in), computed in %s" % kind,
+    exact = []
+    import math as _m
+
+    if _m.frexp(float(ofm_scale))[0] == 0.5:
+        # power-of-two output scale: y / ofm_scale is exact in double.  On the grid of multiples of 2^-20 (|q| < 1024: 30 significant bits, so
+        # zp_out + q is exact in double as well, but NOT in float32) the entry must be exactly the saturated round-half-away-from-zero value -
+        # this pins the rounding direction at ties and the precision the quotient is computed in.
+        yd = d(y)
+        q = z3.fpDiv(RNE, yd, fv(float(ofm_scale)))
+        q20 = z3.fpMul(RNE, q, fv(2.0 ** 20))
+        q2 = z3.fpMul(RNE, q, fv(2.0))
+        tie = z3.And(z3.fpEQ(q2, z3.fpRoundToIntegral(z3.RTZ(), q2)), z3.Not(z3.fpEQ(q, z3.fpRoundToIntegral(z3.RTZ(), q))))
+        # exact ties are left out: both neighbours are nearest, the property does not name a direction (convert_to_lut8 rounds zp_out + q half away
+        # from zero, the TFLite reference rounds q - they differ on ties where q and zp_out + q have different signs)
+        on_grid = z3.And(z3.fpEQ(q20, z3.fpRoundToIntegral(z3.RTZ(), q20)), z3.Not(tie))
+        ideal = z3.fpAdd(RNE, fv(zp_out), z3.fpRoundToIntegral(z3.RNA(), q))
+        sat = z3.If(z3.fpLT(ideal, fv(qmin)), fv(qmin), z3.If(z3.fpGT(ideal, fv(qmax)), fv(qmax), ideal))
+        td = fp.as_f64(t) if isinstance(t, fp.SFloat) else fv(t)
+        exact = [("power-of-two output scale, y on the 2^-20 grid and not a tie: the entry is exactly sat(zp_out + nearest(y / ofm_scale))",
+                  z3.Implies(on_grid, z3.fpEQ(td, sat)))]
+    return exact + [("the function is evaluated at the dequantised input ifm_scale * (code - zp_in), computed in %s" % kind,
              z3.fpEQ(to(xs), z3.fpMul(RNE, sic, cv(code - zp_in)))),
             ("the entry is an integer code of the type", z3.And(z3.fpGEQ(tf, cv(qmin)), z3.fpLEQ(tf, cv(qmax)), z3.fpEQ(tf, z3.fpRoundToIntegral(z3.RTZ(), tf)))),
             ("the entry is the saturated nearest integer to zp_out + y / ofm_scale",
